@@ -68,6 +68,50 @@ fn repmin_abs<const SKIP: usize, const MIN: usize, const KIND: u8>(d0: usize) {
     cover!(o.check.is_none() || MIN == 0, "rejected (n/a for MIN = 0)");
 }
 
+/// `NeverFailedTypedNode` of `Rep` / `RepMinMax<_,0,MAX>` / `AtomicRepeat` (parse_with / check_with, the entry
+/// points the skip machinery uses) agree with the fallible entry points.
+fn never_failed(which: u8) {
+    use pest_typed::tracker::Tracker;
+    use pest_typed::{AsInput, Input, NeverFailedTypedNode, Position};
+    abs_init(3, PROG);
+    let p0 = nd::usize();
+    nd::assume(p0 <= 3);
+    let inp = Position::new(XXX, p0).unwrap();
+    let mut tracker = Tracker::<R>::new(XXX.as_input());
+    type A = RepMin<Abs<0, 1>, AbsSkip<3>, 1, 0>;
+    type B = RepMinMax<Abs<0, 1>, AbsSkip<3>, 1, 0, 2>;
+    type C = AtomicRepeat<Abs<0, 1>>;
+    let mut s1 = fresh_stack(XXX, 0);
+    let (a, n1) = match which {
+        0 => { let (i, v) = <A as NeverFailedTypedNode<R>>::parse_with(inp, &mut s1); (i.byte_offset(), v.content.len()) }
+        1 => { let (i, v) = <B as NeverFailedTypedNode<R>>::parse_with(inp, &mut s1); (i.byte_offset(), v.content.len()) }
+        _ => { let (i, v) = <C as NeverFailedTypedNode<R>>::parse_with(inp, &mut s1); (i.byte_offset(), v.content.len()) }
+    };
+    let c1 = contents(&s1);
+    let mut s2 = fresh_stack(XXX, 0);
+    let b = match which {
+        0 => <A as NeverFailedTypedNode<R>>::check_with(inp, &mut s2).byte_offset(),
+        1 => <B as NeverFailedTypedNode<R>>::check_with(inp, &mut s2).byte_offset(),
+        _ => <C as NeverFailedTypedNode<R>>::check_with(inp, &mut s2).byte_offset(),
+    };
+    let c2 = contents(&s2);
+    let mut s3 = fresh_stack(XXX, 0);
+    let c = match which {
+        0 => check::<A, _>(inp, &mut s3, &mut tracker),
+        1 => check::<B, _>(inp, &mut s3, &mut tracker),
+        _ => check::<C, _>(inp, &mut s3, &mut tracker),
+    };
+    let c3 = contents(&s3);
+    assert!(a == b && Some(a) == c, "parse_with / check_with / try_check_partial_with stop at different offsets");
+    assert!(same_contents(&c1, &c2) && same_contents(&c2, &c3), "the never-failing entry points leave a different stack");
+    assert!(c1.len == n1, "one push per element expected");
+    cover!(n1 == 2, "two iterations");
+    core::mem::forget(s1);
+    core::mem::forget(s2);
+    core::mem::forget(s3);
+    core::mem::forget(tracker);
+}
+
 /// Concrete element kinds on text over a small alphabet.
 fn conc<'i, T: TypedNode<'i, R>, RT: RefNode, const L: usize>(buf: &'i [u8; L], d0: usize, want: usize) {
     let s = nd::as_str(buf);
@@ -127,6 +171,9 @@ harnesses! {
     #[kani::unwind(5)] fn c19_array0() [T0 S] : "Q|[T;0] matches empty" { conc_h!([Str<A>; 0], RArr<RStr<A>, 0>, 3, b"ab", 0, 0) }
     #[kani::unwind(5)] fn c19_array3() [T0 S] : "Q|[\"a\";3] = aaa" { conc_h!([Str<A>; 3], RArr<RStr<A>, 3>, 4, b"ab", 0, 3) }
     #[kani::unwind(5)] fn c19_pair() [T0 S] : "Q|(\"a\",\"ab\")" { conc_h!((Str<A>, Str<AB>), RPair<RStr<A>, RStr<AB>>, 4, b"ab", 0, 3) }
+    #[kani::unwind(5)] fn c19_never_failed_rep() [T0 S] : "Q|Rep::parse_with / check_with (NeverFailedTypedNode) == try_check_partial_with; abstract pushing child" { never_failed(0) }
+    #[kani::unwind(5)] fn c19_never_failed_repminmax() [T0 S] : "Q|RepMinMax<_,0,2>::parse_with / check_with == try_check_partial_with" { never_failed(1) }
+    #[kani::unwind(5)] fn c19_never_failed_atomic_repeat() [T0 S] : "Q|AtomicRepeat::parse_with / check_with == try_check_partial_with" { never_failed(2) }
     #[kani::unwind(5)] fn c19_option_abs() [T0 S] : "Q|Option<Seq2<push,pure>> with abstract children: parse == check == reference incl. the stack when the body fails after pushing" {
         crate::c03::abs3nf::<Option<Seq2<Nk<Abs<0, 1>>, Nk<Abs<1, 0>>>>, ROpt<RSeq2<RSk, 0, RAbs<0, 1>, RAbs<1, 0>>>>(FREE, 1) }
     #[kani::unwind(5)] fn c19_array_pair_abs() [T0 S] : "Q|([T;2], T) of pushing/popping abstract children: parse == check == reference" {
